@@ -341,6 +341,13 @@ class ExcelInPython:
         if not isinstance(range_lookup, (bool, int)):
             return '#ERROR!'
 
+        # a column number made by another function may be a whole float (ROUND gives 2.0)
+        col_index_num = int(col_index_num)
+        if col_index_num < 1:
+            return '#VALUE!'
+        if table_array and col_index_num > max(len(row) for row in table_array):
+            return '#REF!'
+
         lookup_value_type = int if isinstance(lookup_value, self.EmptyCell) else type(lookup_value)
         last_valid_value = '#N/A'
         
@@ -931,7 +938,8 @@ class ExcelInPython:
         return meets
 
     def _search(self, find_text: str, within_text: str, start_num: int | None):
-        start_num = start_num if start_num else 1
+        # a start position made by another function may be a whole float (6/2 is 3.0)
+        start_num = int(start_num) if start_num else 1
         if start_num and (start_num > len(within_text) or start_num <= 0):
             return '#VALUE!'
 
